@@ -115,6 +115,29 @@ let effective ~id (before : itree) (pb : ptree) (after : itree) (pa : ptree) : b
             else (result id "VIOL" "region-count" (Printf.sprintf "terminals after elimination %d, full-dimensional regions %d, non-empty closed regions %d" nt lower upper); false))) in
     ok_regions && ok_single && ok_count
 
+(* T2: replay of the logged oracle answers into the model's elimination; structural comparison incl. states *)
+let lpans_of = function
+  | Atom "infeasible" -> LInf | Atom "unbounded" -> LUnb | Atom "error" -> LErr
+  | List [Atom "optimal"; w] -> LOpt (vec_of w)
+  | _ -> raise (Parse_error "lp status")
+let replay_elim (b : itree) (a : itree) (log : Sexp.t list) : unit =
+  let lps = List.filter_map (function List (Atom "lp" :: _ :: _ :: st :: _) -> Some (lpans_of st) | _ -> None) log in
+  let mirs = List.filter_map (function
+      | List [Atom "mir"; _; _; _; Atom "none"] -> Some None
+      | List [Atom "mir"; _; _; _; List [Atom "some"; m; _]] -> Some (Some (mat_of m))
+      | _ -> None) log in
+  let fuel arena = nat_of_int (List.length arena + 1) in
+  let ab = arena_of b and aa = arena_of a in
+  let rt t = nat_of_int (match t.root with Some r -> r | None -> 0) in
+  match cabs (fuel ab) ab (rt b), cabs (fuel aa) aa (rt a) with
+  | Some cb, Some ca ->
+    let (res, k) = elim (oracle_of_logs lps mirs) tol cb in
+    let used_all = (int_of_nat k.k_lp = List.length lps && int_of_nat k.k_mir = List.length mirs) in
+    if ctree_eqb res ca && used_all then bump "mirror_agree"
+    else if ctree_eqb res ca then bump "mirror_agree_tree_only"
+    else bump "mirror_mismatch"
+  | _ -> bump "mirror_not_a_tree"
+
 let check (case : Sexp.t) : unit =
   match case with
   | List [Atom "case"; Atom id; Atom "elim"; Atom gen; sb; Atom oc; sa; counter; List (Atom "log" :: log); sa2; counter2; List (Atom "pts" :: pts)] ->
@@ -138,6 +161,7 @@ let check (case : Sexp.t) : unit =
            (match ptree_of a with
             | None -> result id "VIOL" "abs" "result arena is not a tree"
             | Some pa ->
+              (try replay_elim b a log with Nonfinite -> bump "mirror_nonfinite");
               let ok1 = equiv_mod_thin ~id ~tag:"elim-preserves" n pa pb in
               let ok2 = points_check ~id ~tag:"evaluate" pa pts in
               if ok1 && ok2 then result id "OK" "elim" "")
